@@ -7,9 +7,11 @@
 \*            with and without feature-code names                                                             = 21328
 \*  inst3:    3 instances, name in 4 tokens x 2 locations, postscript names none/first/last/all, 2 families     = 4096
 \*  axesfea:  as in the quick tier                                                                            = 954
+\*  cvparams: cv01 labels (1..2 of 3 strings) x cv02 labels (1..3 of 3 strings) x cv03 {none, 3 lists} x 4 combinations
+\*            of {feature UI labels, ss01+ss02 names, variable / static}                                       = 7488
 SPECIFICATION Spec
 CONSTANTS
-    Slices = {"fallback", "tail", "inst", "inst3", "axesfea"}
+    Slices = {"fallback", "tail", "inst", "inst3", "axesfea", "cvparams"}
     Tier = "thorough"
 INVARIANTS
     RefsResolve
